@@ -112,11 +112,13 @@ impl Kw {
                 }
             }
             KvCmd::DeleteTtl { key } => {
-                if let Some(e) = self.model.get_mut(key) {
+                // a deleted key is invisible at once and stays so: scheduling it for a later
+                // deletion is as much a no-op as deleting an absent key (the statement's reference
+                // map; the code used to make it visible again with an empty value, finding F-10)
+                if self.model.get(key).map(|e| e.kind == 1).unwrap_or(false) {
+                    self.stats.inc("probe_ttl_on_deleted_key");
+                } else if let Some(e) = self.model.get_mut(key) {
                     self.mv += 1;
-                    if e.kind == 1 {
-                        self.stats.inc("probe_ttl_on_deleted_key");
-                    }
                     e.version = self.mv;
                     e.kind = 2;
                     e.mark_ms = now;
